@@ -1,0 +1,19 @@
+//go:build verif
+
+package txcache
+
+import "sync/atomic"
+
+var verifHook atomic.Value // func(string)
+
+// SetVerifHook installs the function called at every verifPoint (verification harness only)
+func SetVerifHook(f func(id string)) {
+	verifHook.Store(f)
+}
+
+func verifPoint(id string) {
+	f, _ := verifHook.Load().(func(string))
+	if f != nil {
+		f(id)
+	}
+}
